@@ -16,7 +16,9 @@ PID = "C11"
 RULE = (
     "case = (correlation, fluid parameters, dtype in f8/f4/i8/i4, layout contiguous / strided / "
     "reversed view, length 0/1/n, pressures straddling the bubble point and (float dtypes) "
-    "containing it exactly). Non-trivial = length >= 2 and, for the bubble-point aware oil "
+    "containing it exactly and its neighbours p_b(1 -/+ 10^-k), k = 3..12; fluid parameters as floats "
+    "or Python ints; the same values also as column / 2-D (C and column-major) / 0-d arrays; a second "
+    "call on the buffer after the caller overwrote it). Non-trivial = length >= 2 and, for the bubble-point aware oil "
     "correlations, elements on both sides of the bubble point. Distinct = descriptor hash."
 )
 MIN_NONTRIVIAL = {"quick": 200, "thorough": 40000}
